@@ -238,6 +238,22 @@ def gen_release(tier: str, rng: random.Random) -> Iterator[Dict[str, Any]]:
             steps.append({"s": "dt", "d": 0.5})
             yield h2_script(steps, {"1": [["gate"]] + big_resp(1, total, chunk)}, "h2/release/paused-transport/%d/%s" % (chunk, cause),
                             settings={4: 2000000}, maxchunk=chunk)
+    # the frame that uses up the client's window is still being written (the client has stopped reading and
+    # lets little through) when its WINDOW_UPDATE arrives; then the transport drains
+    for W, total, chunk in ((20000, 60000, 20000), (16384, 50000, 16384), (20000, 20010, 20010)):
+        for order in ("credit-during-pause", "credit-after-resume"):
+            steps = [{"s": "h2", "op": "wupd", "stream": 0, "n": 1000000},
+                     build.h2_headers(1, 1, "GET", toks=[["/stale", "/stale"]]), {"s": "dt", "d": 0.01}, {"s": "pause"},
+                     {"s": "go", "app": "1", "n": 1}, {"s": "dt", "d": 0.01}]
+            credit = {"s": "h2", "op": "wupd", "stream": 1, "n": 1000000}
+            steps += ([credit, {"s": "dt", "d": 0.01}, {"s": "resume"}] if order == "credit-during-pause"
+                      else [{"s": "resume"}, {"s": "dt", "d": 0.01}, credit])
+            steps.append({"s": "dt", "d": 0.5})
+            sc = h2_script(steps, {"1": [["gate"]] + big_resp(1, total, chunk)},
+                           "h2/release/window-spent-while-paused/%d/%d/%s" % (W, total, order),
+                           settings={4: W}, autoack=False, maxchunk=chunk)
+            sc["transport_high"] = 1000
+            yield sc
     # HTTP/1: transport paused while the application writes, then released by each cause
     from .gen_h1 import base_script
     for total, chunk in ((400000, 50000), (10, 10)):
@@ -319,6 +335,33 @@ def gen_h2_basic(tier: str, rng: random.Random) -> Iterator[Dict[str, Any]]:
                 ["send", {"type": "http.response.trailers", "headers": [["x-trailer", "t"]], "more": False}],
                 ["recv_disc"]]
         yield h2_script(steps, {"*": prog}, "h2/c02/trailers/%s" % te)
+        # ... after several chunks with pauses between them (the earlier ones already flushed when the later
+        # ones are handed over; the trailers follow the last chunk at once)
+        progc = [["recv_body"],
+                 ["send", {"type": "http.response.start", "status": 200, "headers": [["x-a", "1"]], "trailers": True}],
+                 ["send", {"type": "http.response.body", "pat": [9, 0, 112], "more": True}], ["gate"],
+                 ["send", {"type": "http.response.body", "pat": [9, 112, 113], "more": True}], ["gate"],
+                 ["send", {"type": "http.response.body", "pat": [9, 225, 40], "more": False}],
+                 ["send", {"type": "http.response.trailers", "headers": [["x-trailer", "t"]], "more": False}],
+                 ["recv_disc"]]
+        stepsc = steps[:-1] + [{"s": "dt", "d": 0.01}, {"s": "go", "app": "1", "n": 1}, {"s": "dt", "d": 0.01},
+                               {"s": "go", "app": "1", "n": 1}, {"s": "dt", "d": 0.05}]
+        yield h2_script(stepsc, {"*": progc}, "h2/c02/trailers-after-paced-chunks/%s" % te)
+        # ... on a response that contributes no DATA at all: empty body messages only, a suppressed body (HEAD,
+        # 204) - nothing but the trailers wakes the sending task
+        for name, method, status, bodies in (("one-empty", "GET", 200, [(0, False)]), ("two-empty", "GET", 200, [(0, True), (0, False)]),
+                                             ("head", "HEAD", 200, [(5, False)]), ("no-content", "GET", 204, [(0, False)])):
+            stepsn = [build.h2_headers(1, 1, method, toks=[["/tr0", "/tr0"]], extra=[["te", "trailers"]] if te else []),
+                      {"s": "dt", "d": 0.05}]
+            progn: List[Any] = [["recv_body"]]
+            if bodies is not None:
+                progn.append(["send", {"type": "http.response.start", "status": status, "headers": [["x-a", "1"]], "trailers": True}])
+                off = 0
+                for ln, more in bodies:
+                    progn.append(["send", {"type": "http.response.body", "pat": [9, off, ln], "more": more}])
+                    off += ln
+            progn += [["send", {"type": "http.response.trailers", "headers": [["x-trailer", "t"]], "more": False}], ["recv_disc"]]
+            yield h2_script(stepsn, {"*": progn}, "h2/c02/trailers-without-data/%s/%s" % (name, te))
         # ... followed by another request on the same connection (its header block must still decode)
         steps2 = steps[:-1] + [{"s": "dt", "d": 0.01}, build.h2_headers(2, 3, "GET", toks=[["/after-trailers", "/after-trailers"]]),
                                {"s": "dt", "d": 0.05}]
@@ -423,6 +466,36 @@ def gen_unusual(tier: str, rng: random.Random) -> Iterator[Dict[str, Any]]:
                        ("settings-bad-length", "000005040000000000" + "0000000000")):
         mid = [{"s": "h2", "op": "raw", "hex": hexs, "legal": False}]
         yield script(mid, "violation-" + name)
+
+
+def gen_refused_start(tier: str, rng: random.Random) -> Iterator[Dict[str, Any]]:
+    """The application's response start is refused before anything is written (a Content-Length that is not a
+    number, a status that is not one, a status outside the range) and the application fails on the error:
+    no response had been started, the client is owed the 500.  First and second request of a connection,
+    HTTP/1.1 and HTTP/2 (with a sibling stream that behaves)."""
+    from .gen_h1 import base_script
+
+    kinds = [("content-length-not-a-number", {"headers": [["content-length", "abc"]]}, ("h1",)),
+             ("status-not-a-number", {"status_raw": "200 OK"}, ("h1", "h2")),
+             ("status-out-of-range", {"status": 1000}, ("h1",))]
+    for name, extra, carriers in kinds:
+        start = dict({"type": "http.response.start", "status": 200, "headers": [["x-a", "1"]]}, **extra)
+        for end in ("raise", "return"):
+            bad = [["recv_body"], ["send", start], [end]]
+            for carrier in carriers:
+                if carrier == "h1":
+                    for pos in ("first", "second"):
+                        reqs = [{"rid": 1, "method": "GET", "target": "/r1"}, {"rid": 2, "method": "GET", "target": "/r2"}]
+                        apps = {"1": bad, "2": build.simple_resp_program(chunks=[2])} if pos == "first" else \
+                               {"1": build.simple_resp_program(chunks=[2]), "2": bad}
+                        sc = base_script(reqs if pos == "second" else reqs[:1], apps, fam="c05/refused-start/h1/%s/%s/%s" % (name, end, pos))
+                        sc["steps"] = [{"s": "send"}, {"s": "dt", "d": 0.05}]
+                        yield sc
+                else:
+                    steps = [build.h2_headers(1, 1, "GET", toks=[["/bad", "/bad"]]), build.h2_headers(2, 3, "GET", toks=[["/ok", "/ok"]]),
+                             {"s": "dt", "d": 0.05}]
+                    yield h2_script(steps, {"1": bad, "2": build.simple_resp_program(chunks=[2])},
+                                    "c05/refused-start/h2/%s/%s" % (name, end))
 
 
 def gen_h2_faults(tier: str, rng: random.Random) -> Iterator[Dict[str, Any]]:
